@@ -110,6 +110,10 @@ inductive Err where
   | key
 deriving Repr, DecidableEq
 
+/-- the row a table holds for label `l` (first occurrence) -/
+def rowAt {R Lb : Type} [DecidableEq Lb] (labels : List Lb) (rows : List R) (l : Lb) : Option R :=
+  if l ∈ labels then rows[labels.idxOf l]? else none
+
 section expand
 variable {α X Lb : Type}
 
@@ -249,7 +253,7 @@ variable {α X Lb : Type} [LT α] [DecidableLT α] [DecidableEq Lb]
 /-- the row an event holds for label `l` (first occurrence), relabelled; `none` = the event does not
 list `l` -/
 def evRow (d : Nat) (l : Lb) (e : Ev α X Lb) : Option (Cur α (Option X) String) :=
-  if l ∈ e.cat.labels then (e.cat.rows[e.cat.labels.idxOf l]?).map (relabel e.case e.useExt d) else none
+  (rowAt e.cat.labels e.cat.rows l).map (relabel e.case e.useExt d)
 
 /-- fold of the two-column compare-and-replace over the rows of the events that carry `l`, starting
 from the first event's row when it carries `l` and from the `'n/a'` fill row otherwise -/
@@ -258,11 +262,16 @@ def rowFold (d : Nat) (l : Lb) : List (Ev α X Lb) → Cur α (Option X) String
   | e :: es =>
     (es.filterMap (evRow d l)).foldl (fun c m => upd2 (some c) (m.hi, m.lo)) ((evRow d l e).getD fillCur)
 
-/-- per-case column `k` of label `l`: the value of the event recovered with case number `k` when it
-carries `l` -/
-def colFold (d : Nat) (l : Lb) (nc : Nat) (sel : Cur α (Option X) String → Option α)
-    (es : List (Ev α X Lb)) : List (Option α) :=
-  record nc none (es.filterMap fun e => (evRow d l e).map fun m => (e.j, sel m))
+/-- per-case column of label `l` (`mx[i, :]`, `mn[i, :]`, `mx_x[i, :]`, `mn_x[i, :]`): every event writes
+column `j` = its case number — what it holds for `l`, NaN when it does not list `l` -/
+def colFold {γ : Type} (d : Nat) (l : Lb) (nc : Nat) (sel : Cur α (Option X) String → Option γ)
+    (es : List (Ev α X Lb)) : List (Option γ) :=
+  record nc none (es.map fun e => (e.j, (evRow d l e).bind sel))
+
+/-- the whole row of label `l` in the new category -/
+def specRow (d nc : Nat) (l : Lb) (es : List (Ev α X Lb)) : ARow α X :=
+  ⟨rowFold d l es, colFold d l nc (·.hi.v) es, colFold d l nc (·.lo.v) es,
+    colFold d l nc (·.hi.x) es, colFold d l nc (·.lo.x) es⟩
 
 /-- the row labels of the result: iterated `merge_lists` -/
 def labelFold : List Lb → List (List Lb) → List Lb
